@@ -65,6 +65,40 @@ class _Fn:
         self.names |= {a.arg for a in ast.walk(fn) if isinstance(a, ast.arg)}
         self.params = {a.arg for a in ast.walk(fn.args) if isinstance(a, ast.arg)}
         self.k = 0
+        # locals that are Python lists wherever they are bound in this function (a display, a comprehension, list(..)):
+        # for them `x += [..]` is `x.extend([..])`, never array arithmetic
+        binds = {}
+        self.loops = [(n.lineno, getattr(n, "end_lineno", n.lineno)) for n in ast.walk(fn) if isinstance(n, (ast.For, ast.While))]
+        for n in ast.walk(fn):
+            ln = getattr(n, "lineno", 0)
+            if isinstance(n, ast.Assign):
+                for t in n.targets:
+                    for nm in ([t] if isinstance(t, ast.Name) else [e for e in ast.walk(t) if isinstance(e, ast.Name)] if isinstance(t, (ast.Tuple, ast.List)) else []):
+                        binds.setdefault(nm.id, []).append((ln, n.value if isinstance(t, ast.Name) else None))
+            elif isinstance(n, ast.For):
+                for e in ast.walk(n.target):
+                    if isinstance(e, ast.Name):
+                        binds.setdefault(e.id, []).append((ln, None))
+            elif isinstance(n, (ast.AnnAssign, ast.NamedExpr)) and isinstance(n.target, ast.Name):
+                binds.setdefault(n.target.id, []).append((ln, n.value))
+            elif isinstance(n, (ast.With, ast.AsyncWith)):
+                for it in n.items:
+                    if it.optional_vars is not None:
+                        for e in ast.walk(it.optional_vars):
+                            if isinstance(e, ast.Name):
+                                binds.setdefault(e.id, []).append((ln, None))
+        self.binds = binds
+
+    def is_list_at(self, name, line):
+        """is the local `name` a Python list when the statement at `line` runs: every binding that can reach it (earlier in
+        the text, or later inside a loop that also contains `line`) is a display, a comprehension, list(..) or sorted(..)"""
+        if name in self.params or name not in self.binds:
+            return False
+
+        def listy(v):
+            return isinstance(v, (ast.List, ast.ListComp)) or (isinstance(v, ast.Call) and isinstance(v.func, ast.Name) and v.func.id in ("list", "sorted"))
+        reach = [(l_, v) for l_, v in self.binds[name] if l_ < line or any(a <= line and l_ <= b and a <= l_ for a, b in self.loops)]
+        return bool(reach) and all(listy(v) for _l, v in reach)
 
     def fresh(self, stem="c"):
         while True:
@@ -558,6 +592,25 @@ class _Attr(ast.NodeTransformer):
         if isinstance(n.func, ast.Name) and n.func.id == "getattr" and len(n.args) == 2 and not n.keywords \
                 and isinstance(n.args[1], ast.Constant) and isinstance(n.args[1].value, str) and n.args[1].value.isidentifier():
             return ast.copy_location(ast.Attribute(value=n.args[0], attr=n.args[1].value, ctx=ast.Load()), n)
+        if (access_path(n.func) or "") in ("itertools.islice", "islice") and 2 <= len(n.args) <= 3 and not n.keywords and access_path(n.args[0]) is not None:
+            # islice(X, n) over a sequence named by a path visits X[:n]; islice(X, a, b) visits X[a:b]
+            STATS["islice"] = STATS.get("islice", 0) + 1
+            lo, hi = (None, n.args[1]) if len(n.args) == 2 else (n.args[1], n.args[2])
+            lo = None if lo is not None and isinstance(lo, ast.Constant) and lo.value in (0, None) else lo
+            hi = None if hi is not None and isinstance(hi, ast.Constant) and hi.value is None else hi
+            return self.visit_Subscript(ast.copy_location(ast.Subscript(value=n.args[0], slice=ast.Slice(lower=lo, upper=hi, step=None), ctx=ast.Load()), n))
+        return n
+
+    def visit_Subscript(self, n):
+        self.generic_visit(n)
+        # X[.. : len(X) - k]  ->  X[.. : -k]   (k a positive literal)
+        if isinstance(n.slice, ast.Slice) and n.slice.step is None and isinstance(n.slice.upper, ast.BinOp) and isinstance(n.slice.upper.op, ast.Sub) \
+                and isinstance(n.slice.upper.right, ast.Constant) and isinstance(n.slice.upper.right.value, int) and not isinstance(n.slice.upper.right.value, bool) \
+                and n.slice.upper.right.value > 0 and isinstance(n.slice.upper.left, ast.Call) and access_path(n.slice.upper.left.func) == "len" \
+                and len(n.slice.upper.left.args) == 1 and access_path(n.slice.upper.left.args[0]) is not None \
+                and access_path(n.slice.upper.left.args[0]) == access_path(n.value):
+            STATS["neg_slice"] = STATS.get("neg_slice", 0) + 1
+            n.slice.upper = ast.copy_location(ast.UnaryOp(op=ast.USub(), operand=ast.Constant(value=n.slice.upper.right.value)), n.slice.upper)
         return n
 
     def visit_Lambda(self, n):
@@ -1316,7 +1369,7 @@ def _stmt(st, fx, occ):
             return _block([loop], fx, occ)
     if isinstance(st, ast.AugAssign) and isinstance(st.op, ast.Add) and isinstance(st.target, ast.Name) and isinstance(st.value, (ast.ListComp, ast.List)):
         elts = [st.value.elt] if isinstance(st.value, ast.ListComp) else list(st.value.elts)
-        if elts and all(isinstance(e, (ast.Call, ast.Name, ast.Attribute, ast.List, ast.Tuple, ast.Dict)) for e in elts) \
+        if (hasattr(fx, "is_list_at") and fx.is_list_at(st.target.id, getattr(st, "lineno", 0))) or elts and all(isinstance(e, (ast.Call, ast.Name, ast.Attribute, ast.List, ast.Tuple, ast.Dict)) for e in elts) \
                 and not any(isinstance(e, ast.Call) and (access_path(e.func) or "") in ("float", "int", "abs", "round", "len") for e in elts):
             # xs += [f(v) for v in ys] on a list of objects is xs.extend([...]) (a numeric right-hand side could be array arithmetic: left alone)
             STATS["aug_extend"] = STATS.get("aug_extend", 0) + 1
@@ -1839,8 +1892,63 @@ LOGS = [os.environ.get('VERIF_LOGS', '1') != '0']
 COMP = [True]     # lower statement-level comprehensions (switched off for the rules that interpret them directly)
 
 
+def _coalesce_copies(fn):
+    """a = b; ...(b not mentioned)...; b = a   with `a` living only between the two copies: `a` is `b` under another name
+    (what inlining a helper that rebinds one of its parameters and returns it leaves behind)"""
+    params = {a.arg for a in ast.walk(fn.args) if isinstance(a, ast.arg)}
+    changed = False
+
+    def count(nodes, name):
+        return sum(1 for st in nodes for n in ast.walk(st) if isinstance(n, ast.Name) and n.id == name)
+
+    def blocks(node):
+        for f, v in ast.iter_fields(node):
+            if isinstance(v, list) and v and isinstance(v[0], ast.stmt):
+                yield v
+                for st in v:
+                    if not isinstance(st, (ast.FunctionDef, ast.AsyncFunctionDef, ast.ClassDef)):
+                        yield from blocks(st)
+            elif isinstance(v, list):
+                for x in v:
+                    if isinstance(x, ast.ExceptHandler):
+                        yield from blocks(x)
+    again = True
+    while again:
+        again = False
+        for blk in blocks(fn):
+            for i, s1 in enumerate(blk):
+                if not (isinstance(s1, ast.Assign) and len(s1.targets) == 1 and isinstance(s1.targets[0], ast.Name) and isinstance(s1.value, ast.Name)):
+                    continue
+                a, b = s1.targets[0].id, s1.value.id
+                if a == b or a in params:
+                    continue
+                for j in range(i + 1, len(blk)):
+                    s2 = blk[j]
+                    if isinstance(s2, ast.Assign) and len(s2.targets) == 1 and isinstance(s2.targets[0], ast.Name) and s2.targets[0].id == b \
+                            and isinstance(s2.value, ast.Name) and s2.value.id == a:
+                        between = blk[i + 1:j]
+                        if count(between, b) == 0 and count([fn], a) == count(blk[i:j + 1], a) \
+                                and not any(isinstance(n, (ast.FunctionDef, ast.Lambda, ast.Global, ast.Nonlocal)) for st in between for n in ast.walk(st)):
+                            for st in between:
+                                for n in ast.walk(st):
+                                    if isinstance(n, ast.Name) and n.id == a:
+                                        n.id = b
+                            blk[i:j + 1] = between
+                            STATS["coalesce"] = STATS.get("coalesce", 0) + 1
+                            again = changed = True
+                        break
+                    if count([s2], b) and isinstance(s2, ast.Assign) and any(isinstance(t, ast.Name) and t.id == b for t in s2.targets):
+                        break
+                if again:
+                    break
+            if again:
+                break
+    return changed
+
+
 def normalize_function(fn):
     _strip_annotations(fn)
+    _coalesce_copies(fn)
     _defs_to_lambdas(fn)
     if UNALIAS[0]:
         _unalias(fn)
